@@ -72,6 +72,31 @@ type Cmd struct {
 	Svc  string `json:"svc,omitempty"`
 	Ctx  *Ctx   `json:"ctx,omitempty"`
 	Src  string `json:"src,omitempty"` // direct | store
+	// Set, when present, is the entry set a direct compile command compiles INSTEAD of the stored
+	// one (the proposed set of a rejected write: sets the store refuses still go through the compiler)
+	Set *[]Entry `json:"set,omitempty"`
+}
+
+// Proposed is the entry set the store would hold if command c (write/delete) were applied to st.
+func Proposed(st State, c *Cmd) []Entry {
+	kind, name := c.Kind, c.Name
+	if c.T == "write" {
+		kind, name = c.E.Kind, c.E.Name
+	}
+	out := []Entry{}
+	for _, e := range st.Ents {
+		if e.Kind == kind && e.Name == name {
+			continue
+		}
+		e.Mi = nil
+		out = append(out, e)
+	}
+	if c.T == "write" {
+		e := *c.E
+		e.Mi = nil
+		out = append(out, e)
+	}
+	return out
 }
 
 func (e *Entry) norm() {
@@ -549,6 +574,12 @@ func (h *H) Compile(c *Cmd, reps int, rnd *rand.Rand) (CompileRes, error) {
 	st, err := h.State()
 	if err != nil {
 		return res, err
+	}
+	if c.Set != nil {
+		if c.Src == "store" {
+			return res, fmt.Errorf("an explicit entry set can only be compiled directly")
+		}
+		st = State{Ents: *c.Set}
 	}
 	before := h.Dump()
 	for i := 0; i < reps; i++ {
